@@ -8,6 +8,7 @@ for id in $(/venv/bin/python -c "import json; print(' '.join(c['property_id'] fo
   echo "$out" | tail -1
   [ $e -ne 0 ] && { rc=1; echo "$out" | grep -E "^(VIOLATION|CHECKER)" | head -3; }
 done
+/venv/bin/python tools/mkmanifest.py > /dev/null
 python3-vt - <<'PY'
 import json, jsonschema, glob
 sch = json.load(open('/root/.vp/EVIDENCE.schema.json'))
